@@ -13,6 +13,23 @@ from .contracts import REGISTRY, FIELDS, PURE_SPECS
 sys.setrecursionlimit(50000)
 
 
+_hq_memo = {}
+
+
+def has_quant(t):
+    """Does the term contain a quantifier or lambda (memoised on the AST id)?"""
+    i = t.get_id()
+    r = _hq_memo.get(i)
+    if r is not None:
+        return r
+    if z3.is_quantifier(t):
+        r = True
+    else:
+        r = any(has_quant(c) for c in t.children())
+    _hq_memo[i] = r
+    return r
+
+
 class Ctx:
     """Per-frame continuations and static information."""
 
@@ -75,7 +92,8 @@ class ExecBase:
         return s.check()
 
     def feasible(self, st):
-        r = self.check_sat(st.pc)
+        # pruning only: quantified facts are dropped (fewer constraints never prune a feasible path)
+        r = self.check_sat([t for t in st.pc if not has_quant(t)])
         if r == z3.unsat:
             self.dead += 1
             return False
@@ -538,6 +556,9 @@ class ExecBase:
             return k(st, VFunc("builtin", name=o.name + "." + attr))
         if isinstance(o, (VList, VTuple, VStr, VIter, VDict)):
             return k(st, VFunc("bound", obj=o, name=attr))
+        if isinstance(o, (VU, VInt, VBool)):
+            self.assumptions.add("a scalar payload value has no attribute named like a fibertree field (.%s)" % attr)
+            return self.raise_(st, ctx, "AttributeError", line)
         if isinstance(o, VFunc) and o.kind == "typeof":
             if attr == "__name__":
                 return k(st, VStr(o.name))
